@@ -51,7 +51,10 @@ ObsMatches(o) ==
     /\ \A k \in DOMAIN st'.heads : st'.heads[k] = o.heads[k]
     /\ Len(o.revs) = Cardinality(DOMAIN st'.revs)
     /\ \A i \in DOMAIN o.revs : RevMatches(o.revs[i])
-    /\ ToSet(o.survivors) = {Root} \cup {i \in DOMAIN log' : log'[i].out = "applied"}
+
+\* informational (separate configuration): the changes that survive in the real history are the
+\* ones the model applied
+SurvivorsMatch(o) == ToSet(o.survivors) = {Root} \cup {i \in DOMAIN log : log[i].out = "applied"}
 
 TInit == Init /\ l = 1
 
